@@ -154,18 +154,24 @@ type C4Result struct {
 	Micros    int64                 `json:"us"`
 	Tokens    []parser2.VerifToken  `json:"tokens"`
 	TokHang   bool                  `json:"tok_hang,omitempty"`
+	StackKB   int64                 `json:"stack_kb"` // memory the process obtained from the OS during Generate (MemStats.Sys): deep recursion = stack
 	RecvKnown bool                  `json:"recv_known"`
 	Received  int                   `json:"received"`
 	Total     int                   `json:"total"`
 	Phase     string                `json:"phase,omitempty"`
 }
 
-// time bound for Generate on an input of n bytes whose bracket nesting is d: the property's "linear-ish".
-// 50 us per byte + 50 ms is the design bound; every nesting level of ( [ { costs about 19 parser frames (one per
-// operator priority), 8-9 KB of goroutine stack, whose first touch dominates: 2 ms per level are allowed for it.
-func c04Bound(n, depth int) time.Duration {
-	return 50*time.Millisecond + time.Duration(n)*50*time.Microsecond + time.Duration(depth)*2*time.Millisecond
+// time bound for Generate on an input of n bytes: the property's "linear-ish".
+// 50 us per byte + 50 ms is the design bound.  Every level of recursion through parseExpression (a parenthesis, a list or
+// map literal, a closure body, an argument, a branch of if ...) costs one parser frame per operator priority, about 8.5 KB
+// of goroutine stack for the 18-operator value grammar; the first touch of that memory dominates the run time of deeply
+// nested input on this machine.  The memory the call made the process obtain from the OS is measured (growth of
+// MemStats.Sys: goroutine stack, AST) and paid for with 250 us per KB; it must stay linear in the input (c04StackBoundKB).
+func c04Bound(n int, stackKB int64) time.Duration {
+	return 50*time.Millisecond + time.Duration(n)*50*time.Microsecond + time.Duration(stackKB)*250*time.Microsecond
 }
+
+func c04StackBoundKB(n int) int64 { return 16*1024 + 32*int64(n) }
 
 func c04Depth(ts []parser2.VerifToken) int {
 	d, max := 0, 0
@@ -228,6 +234,8 @@ func c04RunOne(c *C4Case, hardScale float64) C4Result {
 		stack string
 	}
 	och := make(chan out, 1)
+	var m0, m1 runtime.MemStats
+	runtime.ReadMemStats(&m0)
 	t0 := time.Now()
 	go func() {
 		var o out
@@ -244,6 +252,8 @@ func c04RunOne(c *C4Case, hardScale float64) C4Result {
 	select {
 	case o := <-och:
 		res.Micros = time.Since(t0).Microseconds()
+		runtime.ReadMemStats(&m1)
+		res.StackKB = (int64(m1.Sys) - int64(m0.Sys)) / 1024
 		switch {
 		case o.pan != nil:
 			res.Outcome, res.Msg, res.Site = 2, fmt.Sprint(o.pan), c04PanicSite(o.stack)
@@ -654,7 +664,7 @@ func c04Streams(seed int64, tier string, boost int) []C4Case {
 		for _, k := range kinds {
 			s.deep("value", false, false, k, 2000)
 		}
-		// 30000 levels: the cheap grammars in the quick tier (8 KB of stack per level and operator table entry)
+		// 30000 levels: the cheap grammars in the quick tier (8 KB of fresh memory per level and operator table entry)
 		s.deep("empty", false, false, "paren", 30000)
 		s.deep("lastunary", false, false, "unary", 30000)
 		s.deep("bool", false, false, "paren", 30000)
@@ -840,7 +850,7 @@ func c04Human(c *C4Case, r *C4Result, src string) map[string]any {
 		show = show[:100] + " ... " + show[len(show)-60:]
 	}
 	h := map[string]any{"input": fmt.Sprintf("%q", show), "bytes": len(src), "generator": c.Gen, "comments": c.Comments, "comfort": c.Comfort,
-		"stream": c.Src, "outcome": c04OutcomeName[r.Outcome], "message": r.Msg, "micros": r.Micros, "tokens": len(r.Tokens), "repro": c}
+		"stream": c.Src, "outcome": c04OutcomeName[r.Outcome], "message": r.Msg, "micros": r.Micros, "fresh_kb": r.StackKB, "tokens": len(r.Tokens), "repro": c}
 	if r.Outcome >= 2 {
 		h["signature"] = c04Signature(c, r)
 	} else {
@@ -877,7 +887,7 @@ func cmdC04(seed int64, tier, outDir string) {
 		if r.Outcome >= 3 {
 			return true
 		}
-		return time.Duration(r.Micros)*time.Microsecond > c04Bound(len(c04Text(c.Segs)), c04Depth(r.Tokens))
+		return time.Duration(r.Micros)*time.Microsecond > c04Bound(len(c04Text(c.Segs)), r.StackKB)
 	}
 	var again []C4Case
 	for i := range cases {
@@ -898,7 +908,7 @@ func cmdC04(seed int64, tier, outDir string) {
 				continue
 			}
 			old := results[again[i].ID]
-			if r.Outcome < 3 && (old.Outcome >= 3 || r.Micros < old.Micros) {
+			if r.Outcome < 3 && (old.Outcome >= 3 || r.Micros-250*r.StackKB < old.Micros-250*old.StackKB) {
 				results[again[i].ID] = r
 			}
 			if over(&again[i], results[again[i].ID]) {
@@ -919,10 +929,16 @@ func cmdC04(seed int64, tier, outDir string) {
 		src := c04Text(c.Segs)
 		sum.Evaluations++
 		depth := c04Depth(r.Tokens)
-		bound := c04Bound(len(src), depth)
+		bound := c04Bound(len(src), r.StackKB)
 		if r.Outcome < 3 && time.Duration(r.Micros)*time.Microsecond > bound {
 			r.Outcome = 3
-			r.Msg = fmt.Sprintf("Generate returned after %v, the bound for %d bytes and nesting %d is %v (also when run alone)", time.Duration(r.Micros)*time.Microsecond, len(src), depth, bound)
+			r.Msg = fmt.Sprintf("Generate returned after %v, the bound for %d bytes and %d KB of fresh memory is %v (also when run alone)", time.Duration(r.Micros)*time.Microsecond, len(src), r.StackKB, bound)
+		} else if r.Outcome < 3 && r.StackKB > c04StackBoundKB(len(src)) {
+			r.Outcome = 3
+			r.Msg = fmt.Sprintf("Generate needed %d KB of fresh memory for %d bytes of input, more than the linear bound %d KB", r.StackKB, len(src), c04StackBoundKB(len(src)))
+		}
+		if r.StackKB > 1024 && c.Deep > 0 {
+			sum.Count("stack_growth", fmt.Sprintf("%d KB per nesting level (depth %d, %s)", r.StackKB/int64(max(c.Deep, 1)), c.Deep, c.Src))
 		}
 		if r.Outcome < 3 {
 			if q := float64(r.Micros) / float64(bound.Microseconds()); q > maxRatio {
@@ -1000,7 +1016,7 @@ func cmdC04(seed int64, tier, outDir string) {
 	cw.Flush()
 	sum.CaseFiles = cw.files
 	sum.Extra["max_time_over_bound"] = maxRatio
-	sum.Extra["time_bound"] = "50 ms + 50 us x bytes + 2 ms x bracket nesting depth, judged on the fastest of up to three runs (the first under 16-fold parallel load, the others alone)"
+	sum.Extra["time_bound"] = "50 ms + 50 us x bytes + 250 us x KB of fresh memory the call needed (memory <= 16 MB + 32 KB x bytes; the runtime obtains memory in 4 MB steps), judged on the fastest of up to three runs (the first under 16-fold parallel load, the others alone)"
 	sort.SliceStable(sum.GoViolations, func(i, j int) bool {
 		return sum.GoViolations[i].Human["bytes"].(int) < sum.GoViolations[j].Human["bytes"].(int)
 	})
